@@ -60,6 +60,118 @@ var fnTargets = []string{
 	"calendar.Foto.IsDayZhaiSix", "calendar.Foto.IsDayZhaiTen",
 }
 
+// targets translated in string mode (Gen/FnS.lean): strings, string tables, Sprintf and range over tables are inside the subset
+var fnTargetsS = []string{}
+
+// the Go string / fmt semantics used by string mode (part of the translator's trusted base)
+const strHeader = `/-- %d / %v of an int -/
+def fmtD (n : Int) : String := toString n
+
+def padZero (w : Nat) (s : String) : String := String.ofList (List.replicate (w - s.length) '0') ++ s
+
+/-- %0wd: zero padding to width w, the sign counts and comes first -/
+def fmtPad (w : Nat) (n : Int) : String :=
+  if n < 0 then "-" ++ padZero (w - 1) (toString n.natAbs) else padZero w (toString n.natAbs)
+
+def hexDigits (fuel n : Nat) (acc : List Char) : List Char :=
+  match fuel with
+  | 0 => acc
+  | fuel + 1 =>
+    let d := n % 16
+    let c := if d < 10 then Char.ofNat (48 + d) else Char.ofNat (87 + d)
+    if n / 16 = 0 then c :: acc else hexDigits fuel (n / 16) (c :: acc)
+
+/-- %x of an int (lower case, sign first) -/
+def fmtX (n : Int) : String :=
+  (if n < 0 then "-" else "") ++ String.ofList (hexDigits (n.natAbs + 1) n.natAbs [])
+
+/-- strings.Compare: byte-wise lexicographic order = code point order of valid UTF-8 -/
+def strCompare (a b : String) : Int := if a < b then -1 else if a = b then 0 else 1
+
+/-- []string index with Go's bounds panic -/
+def sidx (l : List String) (i : Int) : Except Err String :=
+  if i < 0 then throw Err.panic else match l[i.toNat]? with
+    | some v => pure v
+    | none => throw Err.panic
+
+/-- map[string]string read: the zero value for a missing key -/
+def mlookupS (m : List (String × String)) (k : String) : String :=
+  match m.find? (fun p => p.1 == k) with
+  | some p => p.2
+  | none => ""
+
+def mlookupI (m : List (String × Int)) (k : String) : Int :=
+  match m.find? (fun p => p.1 == k) with
+  | some p => p.2
+  | none => 0
+
+def mhas {α : Type} (m : List (String × α)) (k : String) : Bool := m.any (fun p => p.1 == k)
+
+def strLen (s : String) : Int := (s.utf8ByteSize : Int)
+
+/-- s[a:b] on byte offsets with Go's bounds panic; a cut inside a multi-byte character (which Go allows, yielding an invalid
+string) is NOT modelled and reported as a panic -/
+def strSlice (s : String) (a b : Int) : Except Err String :=
+  if a < 0 ∨ b < a ∨ strLen s < b then throw Err.panic
+  else match String.fromUTF8? (s.toUTF8.extract a.toNat b.toNat) with
+    | some r => pure r
+    | none => throw Err.panic
+
+/-- strings.Index: byte offset of the first occurrence, -1 when absent -/
+def strIndex (s sub : String) : Int :=
+  if sub.isEmpty then 0 else
+  match s.splitOn sub with
+  | [] => -1
+  | [_] => -1
+  | h :: _ => strLen h
+
+def strToUpper (s : String) : String := String.ofList (s.toList.map Char.toUpper)
+
+/-- strings.Replace(s, old, new, n): n < 0 replaces every occurrence, otherwise the first n (old must be non-empty) -/
+def strReplace (s old new : String) (n : Int) : String :=
+  if old.isEmpty then s else
+  let parts := s.splitOn old
+  let k := if n < 0 then parts.length else n.toNat
+  let rec go : List String → Nat → String
+    | [], _ => ""
+    | [p], _ => p
+    | p :: q :: rest, c => if c = 0 then p ++ old ++ go (q :: rest) 0 else p ++ new ++ go (q :: rest) (c - 1)
+  go parts k
+
+def digitVal (c : Char) : Option Nat :=
+  if '0' ≤ c ∧ c ≤ '9' then some (c.toNat - 48)
+  else if 'a' ≤ c ∧ c ≤ 'z' then some (c.toNat - 87)
+  else if 'A' ≤ c ∧ c ≤ 'Z' then some (c.toNat - 55)
+  else none
+
+/-- strconv.ParseInt(s, base, _) with the error dropped: 0 on a syntax error (optional sign, at least one digit, no underscores) -/
+def parseIntBase (base : Nat) (s : String) : Int :=
+  let (neg, ds) := match s.toList with
+    | '-' :: r => (true, r)
+    | '+' :: r => (false, r)
+    | r => (false, r)
+  if ds.isEmpty then 0 else
+  match ds.foldl (fun acc c => match acc, digitVal c with
+      | some a, some d => if d < base then some (a * base + d) else none
+      | _, _ => none) (some 0) with
+  | some v => if neg then -(v : Int) else (v : Int)
+  | none => 0
+
+/-- []rune slicing and indexing with Go's bounds panics; a rune is its code point -/
+def runesSlice (r : List Char) (a b : Int) : Except Err (List Char) :=
+  if a < 0 ∨ b < a ∨ (r.length : Int) < b then throw Err.panic else pure ((r.drop a.toNat).take (b.toNat - a.toNat))
+
+def runeAt (r : List Char) (i : Int) : Except Err Int :=
+  if i < 0 then throw Err.panic else match r[i.toNat]? with
+    | some c => pure (c.toNat : Int)
+    | none => throw Err.panic
+
+def strContains (s sub : String) : Bool := sub.isEmpty || (s.splitOn sub).length > 1
+def strHasPrefix (s p : String) : Bool := p.toList.isPrefixOf s.toList
+def strHasSuffix (s p : String) : Bool := p.toList.isSuffixOf s.toList
+
+`
+
 type kind struct {
 	k string // "int","bool","struct","opaque"
 	s string // struct name (package-less; all in calendar) for k=="struct"
@@ -74,7 +186,13 @@ func (k kind) lean() string {
 	case "struct":
 		return k.s
 	case "ilist":
-		return "List Int"
+		return "(List Int)"
+	case "string":
+		return "String"
+	case "slist":
+		return "(List String)"
+	case "runes":
+		return "(List Char)"
 	}
 	return "?"
 }
@@ -125,6 +243,8 @@ type fnTrans struct {
 	sorder  []string
 	writes  map[string]map[string]bool // fn full name -> Type.field written transitively
 	allObj  map[*types.Func]*fnDecl
+	strMode bool   // strings (and string tables, Sprintf, range over tables) are inside the subset
+	ns      string // Lean namespace of the output
 	target  map[string]bool
 	emit    []string
 	order   []*fnDecl
@@ -165,14 +285,28 @@ func (ft *fnTrans) kindOf(t types.Type) kind {
 		if b, ok := u.Elem().(*types.Basic); ok && b.Kind() == types.Int {
 			return kind{k: "ilist"}
 		}
+		if b, ok := u.Elem().(*types.Basic); ok && b.Kind() == types.Int32 && ft.strMode {
+			return kind{k: "runes"}
+		}
 	case *types.Basic:
 		switch u.Kind() {
 		case types.Int, types.UntypedInt:
 			return kind{k: "int"}
+		case types.Int64, types.Int32, types.UntypedRune:
+			if ft.strMode {
+				return kind{k: "int"} // fixed-width ints are unbounded Int too (noted in the header)
+			}
 		case types.Bool, types.UntypedBool:
 			return kind{k: "bool"}
+		case types.String, types.UntypedString:
+			if ft.strMode {
+				return kind{k: "string"}
+			}
 		}
 	case *types.Named:
+		if ft.strMode && u.Obj().Pkg() != nil && u.Obj().Pkg().Path() == "container/list" && u.Obj().Name() == "List" {
+			return kind{k: "slist"}
+		}
 		if _, ok := u.Underlying().(*types.Struct); ok && u.Obj().Pkg() != nil && strings.HasPrefix(u.Obj().Pkg().Path(), modPath) {
 			if ft.structFor(u) != nil {
 				return kind{k: "struct", s: u.Obj().Name()}
@@ -198,7 +332,10 @@ func (ft *fnTrans) structFor(n *types.Named) *structInfo {
 			ft0 = p.Elem()
 		}
 		var k kind
-		if nn, ok := ft0.(*types.Named); ok && nn.Obj().Name() == name {
+		if ft.strMode && name == "Lunar" && f.Name() == "eightChar" {
+			// the Lunar <-> EightChar pointer cycle is cut on this side in string mode (EightChar.lunar is kept)
+			k = kind{k: "opaque"}
+		} else if nn, ok := ft0.(*types.Named); ok && nn.Obj().Name() == name {
 			k = kind{k: "opaque"}
 		} else if nn, ok := ft0.(*types.Named); ok {
 			if _, known := ft.structs[nn.Obj().Name()]; known && !ft.done(nn.Obj().Name()) {
@@ -209,7 +346,8 @@ func (ft *fnTrans) structFor(n *types.Named) *structInfo {
 		} else {
 			k = ft.kindOf(f.Type())
 		}
-		if k.k == "opaque" {
+		if k.k == "opaque" || k.k == "slist" || k.k == "runes" || k.k == "ilist" {
+			// container/list fields are untyped in Go: not modelled as fields (only as locals / results whose pushes are seen)
 			si.opaque = append(si.opaque, f.Name()+" "+typeStr(f.Type()))
 			continue
 		}
@@ -241,6 +379,8 @@ type tctx struct {
 	fail     string
 	mutParam types.Object
 	inLoop   int
+	listElem map[types.Object]string // list iteration variable -> Lean name of the current element
+	brk      []string                // per enclosing loop: the "finished" flag a Go `break` must set ("" for counted loops)
 }
 
 func (t *tctx) failf(f string, a ...interface{}) {
@@ -295,8 +435,7 @@ func (t *tctx) atom(e ast.Expr, k kind) (ex, bool) {
 	for range t.loopCtr {
 		ty = "Int → " + ty
 	}
-	pos := t.fset().Position(e.Pos()).Line - t.fset().Position(t.fd.decl.Pos()).Line
-	t.out.atoms = append(t.out.atoms, atomInfo{name, ty, fmt.Sprintf("+%d: %s", pos, src(t.fset(), e))})
+	t.out.atoms = append(t.out.atoms, atomInfo{name, ty, src(t.fset(), e)})
 	text := name
 	if len(t.loopCtr) > 0 {
 		text = "(" + name + " " + strings.Join(t.loopCtr, " ") + ")"
@@ -395,6 +534,9 @@ func (t *tctx) exprIn(e ast.Expr) (ex, bool) {
 		if tv.Value.Kind() == constant.Bool {
 			return ex{text: fmt.Sprint(constant.BoolVal(tv.Value))}, true
 		}
+		if tv.Value.Kind() == constant.String && t.ft.strMode {
+			return ex{text: leanStr(constant.StringVal(tv.Value))}, true
+		}
 	}
 	switch x := e.(type) {
 	case *ast.ParenExpr:
@@ -408,6 +550,9 @@ func (t *tctx) exprIn(e ast.Expr) (ex, bool) {
 			return ex{text: lid(x.Name)}, true
 		}
 		if s, ok := t.pkgInt(o); ok {
+			return ex{text: s}, true
+		}
+		if s, ok := t.pkgStr(o); ok {
 			return ex{text: s}, true
 		}
 		return ex{}, false
@@ -455,6 +600,14 @@ func (t *tctx) exprIn(e ast.Expr) (ex, bool) {
 			pre = append(pre, "  "+v+" := "+b.text)
 			return ex{pre, v}, true
 		case token.ADD, token.SUB, token.MUL, token.QUO, token.REM:
+			if x.Op == token.ADD && kx.k == "string" && ky.k == "string" {
+				a, ok1 := t.expr(x.X)
+				b, ok2 := t.expr(x.Y)
+				if !ok1 || !ok2 {
+					return ex{}, false
+				}
+				return ex{append(append([]string{}, a.pre...), b.pre...), "(" + a.text + " ++ " + b.text + ")"}, true
+			}
 			if kx.k != "int" || ky.k != "int" {
 				return ex{}, false
 			}
@@ -486,6 +639,22 @@ func (t *tctx) exprIn(e ast.Expr) (ex, bool) {
 			}
 			return ex{pre, "(" + fn + " " + a.text + " " + b.text + ")"}, true
 		case token.LSS, token.LEQ, token.GTR, token.GEQ, token.EQL, token.NEQ:
+			if kx.k == "string" && ky.k == "string" {
+				a, ok1 := t.expr(x.X)
+				b, ok2 := t.expr(x.Y)
+				if !ok1 || !ok2 {
+					return ex{}, false
+				}
+				pre := append(append([]string{}, a.pre...), b.pre...)
+				op := map[token.Token]string{token.LSS: "< 0", token.LEQ: "≤ 0", token.GTR: "> 0", token.GEQ: "≥ 0", token.EQL: "= 0", token.NEQ: "≠ 0"}[x.Op]
+				if x.Op == token.EQL {
+					return ex{pre, "decide (" + a.text + " = " + b.text + ")"}, true
+				}
+				if x.Op == token.NEQ {
+					return ex{pre, "decide (" + a.text + " ≠ " + b.text + ")"}, true
+				}
+				return ex{pre, "decide (strCompare " + a.text + " " + b.text + " " + op + ")"}, true
+			}
 			if !((kx.k == "int" && ky.k == "int") || (kx.k == "bool" && ky.k == "bool" && (x.Op == token.EQL || x.Op == token.NEQ))) {
 				return ex{}, false
 			}
@@ -518,8 +687,23 @@ func (t *tctx) exprIn(e ast.Expr) (ex, bool) {
 		if s, ok := t.pkgInt(t.info().Uses[x.Sel]); ok {
 			return ex{text: s}, true
 		}
+		if s, ok := t.pkgStr(t.info().Uses[x.Sel]); ok {
+			return ex{text: s}, true
+		}
 		return ex{}, false
 	case *ast.IndexExpr:
+		if r, ok := t.strTableIndex(x); ok {
+			return r, true
+		}
+		if t.ft.strMode && t.ft.kindOf(t.typeOf(x.X)).k == "runes" && t.ft.kindOf(t.typeOf(x.Index)).k == "int" {
+			r, ok1 := t.expr(x.X)
+			i, ok2 := t.expr(x.Index)
+			if ok1 && ok2 {
+				v := t.fresh("t")
+				pre := append(append([]string{}, r.pre...), i.pre...)
+				return ex{append(pre, fmt.Sprintf("let %s ← runeAt %s %s", v, r.text, i.text)), v}, true
+			}
+		}
 		tn, _, ok := t.tableName(x.X)
 		if !ok {
 			if t.ft.kindOf(t.typeOf(x.X)).k == "ilist" {
@@ -548,12 +732,68 @@ func (t *tctx) exprIn(e ast.Expr) (ex, bool) {
 		return t.call(x)
 	case *ast.StarExpr:
 		return t.exprIn(x.X)
+	case *ast.SliceExpr:
+		isRunes := t.ft.kindOf(t.typeOf(x.X)).k == "runes"
+		if !t.ft.strMode || x.Slice3 || (t.ft.kindOf(t.typeOf(x.X)).k != "string" && !isRunes) {
+			return ex{}, false
+		}
+		sx, ok := t.expr(x.X)
+		if !ok {
+			return ex{}, false
+		}
+		pre := append([]string{}, sx.pre...)
+		lo, hi := "0", "(strLen "+sx.text+")"
+		if isRunes {
+			hi = "(" + sx.text + ".length : Int)"
+		}
+		if x.Low != nil {
+			a, ok := t.expr(x.Low)
+			if !ok {
+				return ex{}, false
+			}
+			pre = append(pre, a.pre...)
+			lo = a.text
+		}
+		if x.High != nil {
+			b, ok := t.expr(x.High)
+			if !ok {
+				return ex{}, false
+			}
+			pre = append(pre, b.pre...)
+			hi = b.text
+		}
+		v := t.fresh("t")
+		if isRunes {
+			pre = append(pre, fmt.Sprintf("let %s ← runesSlice %s %s %s", v, sx.text, lo, hi))
+		} else {
+			pre = append(pre, fmt.Sprintf("let %s ← strSlice %s %s %s", v, sx.text, lo, hi))
+		}
+		return ex{pre, v}, true
+	case *ast.TypeAssertExpr:
+		// i.Value.(string) for the element of a list iteration
+		if sel, ok := x.X.(*ast.SelectorExpr); ok && sel.Sel.Name == "Value" {
+			if id, ok := sel.X.(*ast.Ident); ok {
+				if ev, ok := t.listElem[t.info().Uses[id]]; ok && t.ft.kindOf(t.typeOf(x)).k == "string" {
+					return ex{text: ev}, true
+				}
+			}
+		}
+		return ex{}, false
 	}
 	return ex{}, false
 }
 
 func (t *tctx) call(x *ast.CallExpr) (ex, bool) {
 	// conversions and builtins
+	if at, ok := x.Fun.(*ast.ArrayType); ok && at.Len == nil && len(x.Args) == 1 && t.ft.strMode {
+		if id, ok := at.Elt.(*ast.Ident); ok && id.Name == "rune" && t.ft.kindOf(t.typeOf(x.Args[0])).k == "string" {
+			a, ok := t.expr(x.Args[0])
+			if ok {
+				return ex{a.pre, "(" + a.text + ".toList)"}, true
+			}
+		}
+		return ex{}, false
+	}
 	if id, ok := x.Fun.(*ast.Ident); ok {
 		if tn, ok := t.info().Uses[id].(*types.TypeName); ok && len(x.Args) == 1 {
 			if t.ft.kindOf(tn.Type()).k == "int" && t.ft.kindOf(t.typeOf(x.Args[0])).k == "int" {
@@ -564,11 +804,27 @@ func (t *tctx) call(x *ast.CallExpr) (ex, bool) {
 					return r, true
 				}
 			}
+			if t.ft.kindOf(tn.Type()).k == "string" && t.ft.kindOf(t.typeOf(x.Args[0])).k == "runes" {
+				a, ok := t.expr(x.Args[0])
+				if ok {
+					return ex{a.pre, "(String.ofList " + a.text + ")"}, true
+				}
+			}
 			return ex{}, false
 		}
 		if b, ok := t.info().Uses[id].(*types.Builtin); ok {
 			switch b.Name() {
 			case "len":
+				if t.ft.kindOf(t.typeOf(x.Args[0])).k == "string" {
+					if a, ok := t.expr(x.Args[0]); ok {
+						return ex{a.pre, "(strLen " + a.text + ")"}, true
+					}
+				}
+				if t.ft.kindOf(t.typeOf(x.Args[0])).k == "runes" {
+					if a, ok := t.expr(x.Args[0]); ok {
+						return ex{a.pre, "(" + a.text + ".length : Int)"}, true
+					}
+				}
 				if _, n, ok := t.tableName(x.Args[0]); ok {
 					return ex{text: fmt.Sprint(n)}, true
 				}
@@ -592,6 +848,22 @@ func (t *tctx) call(x *ast.CallExpr) (ex, bool) {
 	}
 	f, recv := t.calleeOf(x)
 	if f == nil {
+		return ex{}, false
+	}
+	if t.ft.strMode && f.Pkg() != nil && (f.Pkg().Path() == "strings" || f.Pkg().Path() == "fmt") {
+		return t.stdStr(f, x)
+	}
+	if t.ft.strMode && f.Pkg() != nil && f.Pkg().Path() == "container/list" {
+		switch f.Name() {
+		case "New":
+			return ex{text: "([] : List String)"}, true
+		case "Len":
+			if recv != nil {
+				if a, ok := t.exprIn(recv); ok && t.ft.kindOf(t.typeOf(recv)).k == "slist" {
+					return ex{a.pre, "(" + a.text + ".length : Int)"}, true
+				}
+			}
+		}
 		return ex{}, false
 	}
 	d, o := t.ft.ensure(f)
@@ -663,6 +935,203 @@ func (t *tctx) pkgInt(o types.Object) (string, bool) {
 	return "Gen.Tables." + pk + "." + leanIdent(v.Name()), true
 }
 
+// pkgTable: a package-level table variable whose literal gotrans evaluated; returns the Lean name and the value
+func (t *tctx) pkgTable(e ast.Expr) (string, val, bool) {
+	var obj types.Object
+	switch x := e.(type) {
+	case *ast.Ident:
+		obj = t.info().Uses[x]
+	case *ast.SelectorExpr:
+		obj = t.info().Uses[x.Sel]
+	}
+	v, ok := obj.(*types.Var)
+	if !ok || v.Pkg() == nil || v.Parent() != v.Pkg().Scope() {
+		return "", val{}, false
+	}
+	pk := strings.TrimPrefix(v.Pkg().Path(), modPath)
+	pi, ok := t.ft.infos[pk]
+	if !ok {
+		return "", val{}, false
+	}
+	init, ok := pi.decls[v.Name()]
+	if !ok || init == nil {
+		return "", val{}, false
+	}
+	vv, ok := pi.eval(init, 0)
+	if !ok || !uniform(vv, shape(vv)) {
+		return "", val{}, false
+	}
+	return "Gen.Tables." + pk + "." + leanIdent(v.Name()), vv, true
+}
+
+// strTableIndex: T[i] for a package []string table (bounds panic), M[k] for a package map[string]string / map[string]int
+// table (missing key = zero value)
+func (t *tctx) strTableIndex(x *ast.IndexExpr) (ex, bool) {
+	if !t.ft.strMode {
+		return ex{}, false
+	}
+	name, vv, ok := t.pkgTable(x.X)
+	if !ok {
+		return ex{}, false
+	}
+	switch shape(vv) {
+	case "List (String)", "List String":
+		if t.ft.kindOf(t.typeOf(x.Index)).k != "int" {
+			return ex{}, false
+		}
+		i, ok := t.expr(x.Index)
+		if !ok {
+			return ex{}, false
+		}
+		v := t.fresh("t")
+		return ex{append(append([]string{}, i.pre...), fmt.Sprintf("let %s ← sidx %s %s", v, name, i.text)), v}, true
+	case "List (String × String)":
+		k, ok := t.expr(x.Index)
+		if !ok || t.ft.kindOf(t.typeOf(x.Index)).k != "string" {
+			return ex{}, false
+		}
+		return ex{k.pre, "(mlookupS " + name + " " + k.text + ")"}, true
+	case "List (String × Int)":
+		k, ok := t.expr(x.Index)
+		if !ok || t.ft.kindOf(t.typeOf(x.Index)).k != "string" {
+			return ex{}, false
+		}
+		return ex{k.pre, "(mlookupI " + name + " " + k.text + ")"}, true
+	}
+	return ex{}, false
+}
+
+// stdStr: the strings / fmt functions inside the subset
+func (t *tctx) stdStr(f *types.Func, x *ast.CallExpr) (ex, bool) {
+	args := func() ([]string, []string, bool) {
+		var pre, as []string
+		for _, a0 := range x.Args {
+			k := t.ft.kindOf(t.typeOf(a0)).k
+			if k != "string" && k != "int" {
+				return nil, nil, false
+			}
+			a, ok := t.expr(a0)
+			if !ok {
+				return nil, nil, false
+			}
+			pre = append(pre, a.pre...)
+			as = append(as, a.text)
+		}
+		return pre, as, true
+	}
+	switch f.Pkg().Path() + "." + f.Name() {
+	case "strings.Compare":
+		pre, as, ok := args()
+		if !ok || len(as) != 2 {
+			return ex{}, false
+		}
+		return ex{pre, "(strCompare " + as[0] + " " + as[1] + ")"}, true
+	case "strings.Contains", "strings.HasPrefix", "strings.HasSuffix":
+		pre, as, ok := args()
+		if !ok || len(as) != 2 {
+			return ex{}, false
+		}
+		fn := map[string]string{"Contains": "strContains", "HasPrefix": "strHasPrefix", "HasSuffix": "strHasSuffix"}[f.Name()]
+		return ex{pre, "(" + fn + " " + as[0] + " " + as[1] + ")"}, true
+	case "strings.Index":
+		pre, as, ok := args()
+		if !ok || len(as) != 2 {
+			return ex{}, false
+		}
+		return ex{pre, "(strIndex " + as[0] + " " + as[1] + ")"}, true
+	case "strings.ToUpper":
+		pre, as, ok := args()
+		if !ok || len(as) != 1 {
+			return ex{}, false
+		}
+		t.out.notes = append(t.out.notes, "strings.ToUpper modelled on ASCII letters only")
+		return ex{pre, "(strToUpper " + as[0] + ")"}, true
+	case "strings.Replace":
+		pre, as, ok := args()
+		if !ok || len(as) != 4 {
+			return ex{}, false
+		}
+		return ex{pre, "(strReplace " + as[0] + " " + as[1] + " " + as[2] + " " + as[3] + ")"}, true
+	case "fmt.Sprintf":
+		if len(x.Args) == 0 {
+			return ex{}, false
+		}
+		tv, ok := t.info().Types[x.Args[0]]
+		if !ok || tv.Value == nil || tv.Value.Kind() != constant.String {
+			return ex{}, false
+		}
+		format := constant.StringVal(tv.Value)
+		var pre, parts []string
+		argi := 1
+		lit := ""
+		flush := func() {
+			if lit != "" {
+				parts = append(parts, leanStr(lit))
+				lit = ""
+			}
+		}
+		rs := []rune(format)
+		for i := 0; i < len(rs); i++ {
+			if rs[i] != '%' {
+				lit += string(rs[i])
+				continue
+			}
+			i++
+			if i >= len(rs) {
+				return ex{}, false
+			}
+			if rs[i] == '%' {
+				lit += "%"
+				continue
+			}
+			zero := false
+			width := 0
+			if rs[i] == '0' {
+				zero = true
+				i++
+			}
+			for i < len(rs) && rs[i] >= '0' && rs[i] <= '9' {
+				width = width*10 + int(rs[i]-'0')
+				i++
+			}
+			if i >= len(rs) || argi >= len(x.Args) {
+				return ex{}, false
+			}
+			verb := rs[i]
+			a0 := x.Args[argi]
+			argi++
+			k := t.ft.kindOf(t.typeOf(a0)).k
+			a, ok := t.expr(a0)
+			if !ok {
+				return ex{}, false
+			}
+			pre = append(pre, a.pre...)
+			flush()
+			switch {
+			case (verb == 'd' || verb == 'v') && k == "int" && width == 0 && !zero:
+				parts = append(parts, "fmtD "+a.text)
+			case verb == 'd' && k == "int" && zero && width > 0:
+				parts = append(parts, fmt.Sprintf("fmtPad %d %s", width, a.text))
+			case verb == 'x' && k == "int" && width == 0 && !zero:
+				parts = append(parts, "fmtX "+a.text)
+			case (verb == 's' || verb == 'v') && k == "string" && width == 0 && !zero:
+				parts = append(parts, a.text)
+			default:
+				return ex{}, false
+			}
+		}
+		flush()
+		if argi != len(x.Args) {
+			return ex{}, false
+		}
+		if len(parts) == 0 {
+			return ex{pre, "\"\""}, true
+		}
+		return ex{pre, "(" + strings.Join(parts, " ++ ") + ")"}, true
+	}
+	return ex{}, false
+}
+
 // pkgListLen: len() of a package-level slice variable whose literal gotrans evaluated (its initial length)
 func (t *tctx) pkgListLen(e ast.Expr) (int, bool) {
 	var obj types.Object
@@ -691,6 +1160,35 @@ func (t *tctx) pkgListLen(e ast.Expr) (int, bool) {
 	}
 	t.out.notes = append(t.out.notes, "len("+pk+"."+v.Name()+") read as the length of its initial value")
 	return len(val.list), true
+}
+
+// pkgStr: a package-level string variable whose initialiser gotrans evaluated, read as its initial value (string mode)
+func (t *tctx) pkgStr(o types.Object) (string, bool) {
+	if !t.ft.strMode {
+		return "", false
+	}
+	v, ok := o.(*types.Var)
+	if !ok || v.Pkg() == nil || v.Parent() != v.Pkg().Scope() {
+		return "", false
+	}
+	if b, ok := v.Type().(*types.Basic); !ok || b.Kind() != types.String {
+		return "", false
+	}
+	pk := strings.TrimPrefix(v.Pkg().Path(), modPath)
+	pi, ok := t.ft.infos[pk]
+	if !ok {
+		return "", false
+	}
+	init, ok := pi.decls[v.Name()]
+	if !ok || init == nil {
+		return "", false
+	}
+	val, ok := pi.eval(init, 0)
+	if !ok || val.kind != "str" {
+		return "", false
+	}
+	t.out.notes = append(t.out.notes, "package variable "+pk+"."+v.Name()+" read as its initial value")
+	return "Gen.Tables." + pk + "." + leanIdent(v.Name()), true
 }
 
 // ceilPattern: math.Ceil(float64(E) / C) with int E and a positive integer constant C, under int(...):
@@ -763,7 +1261,12 @@ func (ft *fnTrans) ensure(f *types.Func) (*fnDecl, *fnOut) {
 		ft.order = append(ft.order, d)
 	} else if o.ok {
 		o.ok = false
-		o.reason = "on-demand callee outside the pure subset"
+		o.reason = "outside the pure subset"
+		if len(o.atoms) > 0 {
+			o.reason += "; first atom: " + o.atoms[0].text
+		} else if len(o.dropped) > 0 {
+			o.reason += "; first dropped: " + o.dropped[0]
+		}
 	}
 	return d, o
 }
@@ -811,8 +1314,7 @@ func mentions(e ast.Node, info *types.Info) map[types.Object]bool {
 }
 
 func (t *tctx) drop(s ast.Node, why string) {
-	pos := t.fset().Position(s.Pos()).Line - t.fset().Position(t.fd.decl.Pos()).Line
-	t.out.dropped = append(t.out.dropped, fmt.Sprintf("+%d %s: %s", pos, why, src(t.fset(), s)))
+	t.out.dropped = append(t.out.dropped, fmt.Sprintf("%s: %s", why, src(t.fset(), s)))
 }
 
 // mayWriteTranslated: does the (untranslated) call possibly write a translated field of one of our struct locals?
@@ -984,7 +1486,7 @@ func (t *tctx) stmt(s ast.Stmt) []string {
 					out = append(out, fmt.Sprintf("let mut %s : %s := %s", lid(n.Name), k.lean(), e.text))
 				} else {
 					t.locals[o] = k
-					zero := map[string]string{"int": "0", "bool": "false"}[k.k]
+					zero := map[string]string{"int": "0", "bool": "false", "string": "\"\""}[k.k]
 					if k.k == "struct" {
 						zero = "default"
 						t.out.notes = append(t.out.notes, "var "+n.Name+" *"+k.s+" (nil) modelled as the all-zero struct value")
@@ -995,6 +1497,9 @@ func (t *tctx) stmt(s ast.Stmt) []string {
 		}
 		return out
 	case *ast.AssignStmt:
+		if r, ok := t.parseIntAssign(x); ok {
+			return r
+		}
 		if len(x.Lhs) != len(x.Rhs) {
 			// v, ok := m[k] and friends
 			for _, l := range x.Lhs {
@@ -1041,6 +1546,10 @@ func (t *tctx) stmt(s ast.Stmt) []string {
 			// type info for the synthetic node: evaluate pieces separately
 			a, ok1 := t.expr(lhs)
 			b, ok2 := t.expr(rhs)
+			if ok1 && ok2 && k.k == "string" && op == token.ADD && t.ft.kindOf(t.typeOf(rhs)).k == "string" {
+				pre := append(append([]string{}, a.pre...), b.pre...)
+				return append(pre, t.assignTo(lhs, "("+a.text+" ++ "+b.text+")", false, k)...)
+			}
 			if !ok1 || !ok2 || k.k != "int" {
 				t.failf("unsupported compound assignment %s", src(t.fset(), x))
 				return nil
@@ -1100,7 +1609,23 @@ func (t *tctx) stmt(s ast.Stmt) []string {
 				return []string{"throw Err.panic"}
 			}
 		}
-		f, _ := t.calleeOf(call)
+		f, recvE := t.calleeOf(call)
+		if f != nil && t.ft.strMode && f.Pkg() != nil && f.Pkg().Path() == "container/list" && (f.Name() == "PushBack" || f.Name() == "PushFront") && len(call.Args) == 1 {
+			id, ok := recvE.(*ast.Ident)
+			if ok {
+				if lk, ok := t.locals[t.info().Uses[id]]; ok && lk.k == "slist" && t.ft.kindOf(t.typeOf(call.Args[0])).k == "string" {
+					a, ok := t.expr(call.Args[0])
+					if ok {
+						if f.Name() == "PushBack" {
+							return append(a.pre, fmt.Sprintf("%s := %s ++ [%s]", lid(id.Name), lid(id.Name), a.text))
+						}
+						return append(a.pre, fmt.Sprintf("%s := %s :: %s", lid(id.Name), a.text, lid(id.Name)))
+					}
+				}
+			}
+			t.failf("unsupported list operation %s", src(t.fset(), x))
+			return nil
+		}
 		if f != nil {
 			if d, o := t.ft.ensure(f); d != nil {
 				if o != nil && o.ok && len(o.atoms) == 0 {
@@ -1146,6 +1671,9 @@ func (t *tctx) stmt(s ast.Stmt) []string {
 		return t.retLine(&e)
 	case *ast.IfStmt:
 		if x.Init != nil {
+			if r, ok := t.ifMapLookup(x); ok {
+				return r
+			}
 			t.failf("if with init statement: %s", src(t.fset(), x.Init))
 			return nil
 		}
@@ -1174,6 +1702,9 @@ func (t *tctx) stmt(s ast.Stmt) []string {
 		}
 		switch x.Tok {
 		case token.BREAK:
+			if f := t.brk[len(t.brk)-1]; f != "" {
+				return []string{f + " := true", "break"}
+			}
 			return []string{"break"}
 		case token.CONTINUE:
 			return []string{"continue"}
@@ -1184,6 +1715,8 @@ func (t *tctx) stmt(s ast.Stmt) []string {
 		return t.forStmt(x)
 	case *ast.SwitchStmt:
 		return t.switchStmt(x)
+	case *ast.RangeStmt:
+		return t.rangeStmt(x)
 	}
 	t.failf("unsupported statement %T", s)
 	return nil
@@ -1285,6 +1818,226 @@ func (t *tctx) switchStmt(x *ast.SwitchStmt) []string {
 	return append(out, build(0)...)
 }
 
+// parseIntAssign: `n, _ := strconv.ParseInt(s, base, bits)` with base 10 / 16 (the error is ignored by the Go code: 0 on a
+// syntax error)
+func (t *tctx) parseIntAssign(x *ast.AssignStmt) ([]string, bool) {
+	if !t.ft.strMode || len(x.Lhs) != 2 || len(x.Rhs) != 1 {
+		return nil, false
+	}
+	call, ok := x.Rhs[0].(*ast.CallExpr)
+	if !ok || len(call.Args) != 3 {
+		return nil, false
+	}
+	f, _ := t.calleeOf(call)
+	if f == nil || f.Pkg() == nil || f.Pkg().Path() != "strconv" || f.Name() != "ParseInt" {
+		return nil, false
+	}
+	if id, ok := x.Lhs[1].(*ast.Ident); !ok || id.Name != "_" {
+		return nil, false
+	}
+	tv, ok := t.info().Types[call.Args[1]]
+	if !ok || tv.Value == nil {
+		return nil, false
+	}
+	base, _ := constant.Int64Val(tv.Value)
+	if base != 10 && base != 16 {
+		return nil, false
+	}
+	a, ok := t.expr(call.Args[0])
+	if !ok {
+		return nil, false
+	}
+	t.out.notes = append(t.out.notes, "strconv.ParseInt with the error ignored: 0 on a syntax error; range errors not modelled")
+	return append(a.pre, t.assignTo(x.Lhs[0], fmt.Sprintf("(parseIntBase %d %s)", base, a.text), x.Tok == token.DEFINE, kind{k: "int"})...), true
+}
+
+// listLoop: `for i := l.Front(); i != nil; i = i.Next() { … i.Value.(string) … }` over a list of strings
+func (t *tctx) listLoop(x *ast.ForStmt) ([]string, bool) {
+	if !t.ft.strMode || x.Init == nil || x.Cond == nil || x.Post == nil {
+		return nil, false
+	}
+	as, ok := x.Init.(*ast.AssignStmt)
+	if !ok || as.Tok != token.DEFINE || len(as.Lhs) != 1 || len(as.Rhs) != 1 {
+		return nil, false
+	}
+	iv, ok := as.Lhs[0].(*ast.Ident)
+	if !ok {
+		return nil, false
+	}
+	call, ok := as.Rhs[0].(*ast.CallExpr)
+	if !ok {
+		return nil, false
+	}
+	f, recv := t.calleeOf(call)
+	if f == nil || f.Pkg() == nil || f.Pkg().Path() != "container/list" || f.Name() != "Front" || recv == nil {
+		return nil, false
+	}
+	if t.ft.kindOf(t.typeOf(recv)).k != "slist" {
+		return nil, false
+	}
+	io := t.info().Defs[iv]
+	// cond: i != nil ; post: i = i.Next()
+	be, ok := x.Cond.(*ast.BinaryExpr)
+	if !ok || be.Op != token.NEQ {
+		return nil, false
+	}
+	if id, ok := be.X.(*ast.Ident); !ok || t.info().Uses[id] != io {
+		return nil, false
+	}
+	ps, ok := x.Post.(*ast.AssignStmt)
+	if !ok || len(ps.Lhs) != 1 || len(ps.Rhs) != 1 {
+		return nil, false
+	}
+	if id, ok := ps.Lhs[0].(*ast.Ident); !ok || t.info().Uses[id] != io {
+		return nil, false
+	}
+	pc, ok := ps.Rhs[0].(*ast.CallExpr)
+	if !ok {
+		return nil, false
+	}
+	if pf, pr := t.calleeOf(pc); pf == nil || pf.Name() != "Next" || pr == nil {
+		return nil, false
+	} else if id, ok := pr.(*ast.Ident); !ok || t.info().Uses[id] != io {
+		return nil, false
+	}
+	// the list must not be modified in the body
+	if lid0, ok := recv.(*ast.Ident); ok {
+		if assignedIn(x.Body, t.info())[t.info().Uses[lid0]] {
+			return nil, false
+		}
+	}
+	l, ok := t.expr(recv)
+	if !ok {
+		return nil, false
+	}
+	ev := t.fresh("e")
+	out := append([]string{}, l.pre...)
+	out = append(out, fmt.Sprintf("for %s in %s do", ev, l.text))
+	t.listElem[io] = ev
+	t.inLoop++
+	t.brk = append(t.brk, "")
+	nAtoms := len(t.out.atoms)
+	body := t.block(x.Body.List)
+	t.brk = t.brk[:len(t.brk)-1]
+	t.inLoop--
+	delete(t.listElem, io)
+	if len(t.out.atoms) != nAtoms {
+		t.failf("atom inside a list iteration")
+		return nil, true
+	}
+	return append(out, ind(body)...), true
+}
+
+// rangeStmt: `for i, v := range T` over a package-level []string / []int table
+func (t *tctx) rangeStmt(x *ast.RangeStmt) []string {
+	name, vv, ok := t.pkgTable(x.X)
+	if !ok || vv.kind != "list" || x.Tok != token.DEFINE {
+		t.failf("unsupported range statement over %s", src(t.fset(), x.X))
+		return nil
+	}
+	elem := ""
+	switch shape(vv) {
+	case "List (String)", "List String":
+		if !t.ft.strMode {
+			t.failf("range over a string table outside string mode")
+			return nil
+		}
+		elem = "string"
+	case "List (Int)":
+		elem = "int"
+	default:
+		t.failf("unsupported range element type %s", shape(vv))
+		return nil
+	}
+	k := t.fresh("k")
+	out := []string{fmt.Sprintf("for %s in [0:%d] do", k, len(vv.list))}
+	var body []string
+	ctr := "(" + k + " : Int)"
+	if id, ok := x.Key.(*ast.Ident); ok && id.Name != "_" {
+		t.locals[t.info().Defs[id]] = kind{k: "int"}
+		body = append(body, fmt.Sprintf("let %s : Int := (%s : Int)", lid(id.Name), k))
+	}
+	if x.Value != nil {
+		if id, ok := x.Value.(*ast.Ident); ok && id.Name != "_" {
+			t.locals[t.info().Defs[id]] = kind{k: elem}
+			fn := "sidx"
+			if elem == "int" {
+				fn = "idx"
+			}
+			body = append(body, fmt.Sprintf("let %s ← %s %s (%s : Int)", lid(id.Name), fn, name, k))
+		}
+	}
+	t.loopCtr = append(t.loopCtr, ctr)
+	t.inLoop++
+	t.brk = append(t.brk, "")
+	body = append(body, t.block(x.Body.List)...)
+	t.brk = t.brk[:len(t.brk)-1]
+	t.inLoop--
+	t.loopCtr = t.loopCtr[:len(t.loopCtr)-1]
+	t.out.notes = append(t.out.notes, "range over "+strings.TrimPrefix(name, "Gen.Tables.")+" iterates its initial value")
+	return append(out, ind(body)...)
+}
+
+// ifMapLookup: `if v, ok := M[k]; ok { A } else { B }` for a package-level map table
+func (t *tctx) ifMapLookup(x *ast.IfStmt) ([]string, bool) {
+	if !t.ft.strMode {
+		return nil, false
+	}
+	as, ok := x.Init.(*ast.AssignStmt)
+	if !ok || as.Tok != token.DEFINE || len(as.Lhs) != 2 || len(as.Rhs) != 1 {
+		return nil, false
+	}
+	ie, ok := as.Rhs[0].(*ast.IndexExpr)
+	if !ok {
+		return nil, false
+	}
+	name, vv, ok := t.pkgTable(ie.X)
+	if !ok || vv.kind != "map" {
+		return nil, false
+	}
+	vid, ok1 := as.Lhs[0].(*ast.Ident)
+	okid, ok2 := as.Lhs[1].(*ast.Ident)
+	cid, ok3 := x.Cond.(*ast.Ident)
+	if !ok1 || !ok2 || !ok3 || t.info().Uses[cid] != t.info().Defs[okid] {
+		return nil, false
+	}
+	key, ok := t.expr(ie.Index)
+	if !ok || t.ft.kindOf(t.typeOf(ie.Index)).k != "string" {
+		return nil, false
+	}
+	var look string
+	var vk kind
+	switch shape(vv) {
+	case "List (String × String)":
+		look, vk = "mlookupS", kind{k: "string"}
+	case "List (String × Int)":
+		look, vk = "mlookupI", kind{k: "int"}
+	default:
+		return nil, false
+	}
+	out := append([]string{}, key.pre...)
+	kv := t.fresh("t")
+	out = append(out, fmt.Sprintf("let %s : String := %s", kv, key.text))
+	if vid.Name != "_" {
+		t.locals[t.info().Defs[vid]] = vk
+		out = append(out, fmt.Sprintf("let mut %s : %s := %s %s %s", lid(vid.Name), vk.lean(), look, name, kv))
+	}
+	t.locals[t.info().Defs[okid]] = kind{k: "bool"}
+	out = append(out, fmt.Sprintf("let mut %s : Bool := mhas %s %s", lid(okid.Name), name, kv))
+	out = append(out, "if "+lid(okid.Name)+" then")
+	out = append(out, ind(t.block(x.Body.List))...)
+	if x.Else != nil {
+		out = append(out, "else")
+		switch e := x.Else.(type) {
+		case *ast.BlockStmt:
+			out = append(out, ind(t.block(e.List))...)
+		default:
+			out = append(out, ind(t.stmt(e))...)
+		}
+	}
+	return out, true
+}
+
 func (t *tctx) mutCall(call *ast.CallExpr, d *fnDecl, o *fnOut) []string {
 	var pre, args []string
 	target := ""
@@ -1319,6 +2072,9 @@ func (t *tctx) mutCall(call *ast.CallExpr, d *fnDecl, o *fnOut) []string {
 }
 
 func (t *tctx) forStmt(x *ast.ForStmt) []string {
+	if r, ok := t.listLoop(x); ok {
+		return r
+	}
 	info := t.info()
 	// counted loop: for i := a; i < b; i += c
 	if as, ok := x.Init.(*ast.AssignStmt); ok && as.Tok == token.DEFINE && len(as.Lhs) == 1 && x.Cond != nil && x.Post != nil {
@@ -1367,7 +2123,9 @@ func (t *tctx) forStmt(x *ast.ForStmt) []string {
 					body := []string{fmt.Sprintf("let %s : Int := %s + %d * (%s : Int)", lid(iv.Name), lo, step, k)}
 					t.loopCtr = append(t.loopCtr, lid(iv.Name))
 					t.inLoop++
+					t.brk = append(t.brk, "")
 					body = append(body, t.block(x.Body.List)...)
+					t.brk = t.brk[:len(t.brk)-1]
 					t.inLoop--
 					t.loopCtr = t.loopCtr[:len(t.loopCtr)-1]
 					return append(out, ind(body)...)
@@ -1375,8 +2133,8 @@ func (t *tctx) forStmt(x *ast.ForStmt) []string {
 			}
 		}
 	}
-	// for cond { } : fuel-bounded
-	if x.Init == nil && x.Post == nil && x.Cond != nil {
+	// for cond { } and for { } : fuel-bounded
+	if x.Init == nil && x.Post == nil {
 		t.out.needFuel = true
 		k := t.fresh("k")
 		done := t.fresh("done")
@@ -1386,30 +2144,24 @@ func (t *tctx) forStmt(x *ast.ForStmt) []string {
 		kc := "(" + k + " : Int)"
 		t.loopCtr = append(t.loopCtr, kc)
 		t.inLoop++
-		c, ok := t.expr(x.Cond)
-		if !ok {
-			t.failf("unsupported loop condition %s", src(t.fset(), x.Cond))
-			return nil
-		}
-		body := append([]string{}, c.pre...)
-		body = append(body, "if !"+c.text+" then", "  "+done+" := true", "  break")
-		// a `break` of the Go loop also leaves with the loop finished
-		inner := t.block(x.Body.List)
-		for i, l := range inner {
-			if strings.TrimSpace(l) == "break" {
-				pad := l[:len(l)-len(strings.TrimLeft(l, " "))]
-				inner[i] = pad + done + " := true\n" + "      " + pad + "break"
+		t.brk = append(t.brk, done)
+		var body []string
+		if x.Cond != nil {
+			c, ok := t.expr(x.Cond)
+			if !ok {
+				t.failf("unsupported loop condition %s", src(t.fset(), x.Cond))
+				return nil
 			}
+			body = append(body, c.pre...)
+			body = append(body, "if !"+c.text+" then", "  "+done+" := true", "  break")
 		}
-		body = append(body, inner...)
+		body = append(body, t.block(x.Body.List)...)
+		t.brk = t.brk[:len(t.brk)-1]
 		t.inLoop--
 		t.loopCtr = t.loopCtr[:len(t.loopCtr)-1]
 		out = append(out, ind(body)...)
-		// out of fuel: one more evaluation of the condition decides
-		out = append(out, "if !"+done+" then")
-		c2, _ := t.expr(x.Cond)
-		_ = c2
-		out = append(out, "  throw Err.fuel")
+		// the loop was still running when the fuel ran out
+		out = append(out, "if !"+done+" then", "  throw Err.fuel")
 		return out
 	}
 	t.failf("unsupported loop shape: %s", src(t.fset(), x.Cond))
@@ -1420,7 +2172,7 @@ func (t *tctx) forStmt(x *ast.ForStmt) []string {
 
 func (ft *fnTrans) translate(d *fnDecl) *fnOut {
 	o := &fnOut{}
-	t := &tctx{ft: ft, fd: d, out: o, locals: map[types.Object]kind{}}
+	t := &tctx{ft: ft, fd: d, out: o, locals: map[types.Object]kind{}, listElem: map[types.Object]string{}}
 	sig := d.obj.Type().(*types.Signature)
 	var params []string
 	addParam := func(v *types.Var, name string) bool {
@@ -1673,7 +2425,12 @@ func (ft *fnTrans) computeWrites() {
 }
 
 func writeFn(outDir string, cs map[string]*checked, infos map[string]*pkgInfo) {
-	ft := &fnTrans{cs: cs, infos: infos, decls: map[string]*fnDecl{}, byObj: map[*types.Func]*fnDecl{}, out: map[string]*fnOut{}, structs: map[string]*structInfo{},
+	runFn(outDir, "Fn.lean", "Gen.Fn", fnTargets, false, cs, infos)
+	runFn(outDir, "FnS.lean", "Gen.FnS", fnTargetsS, true, cs, infos)
+}
+
+func runFn(outDir, file, ns string, fnTargets []string, strMode bool, cs map[string]*checked, infos map[string]*pkgInfo) {
+	ft := &fnTrans{strMode: strMode, ns: ns, cs: cs, infos: infos, decls: map[string]*fnDecl{}, byObj: map[*types.Func]*fnDecl{}, out: map[string]*fnOut{}, structs: map[string]*structInfo{},
 		allObj: map[*types.Func]*fnDecl{}, target: map[string]bool{}}
 	// index all module functions
 	for pk, c := range cs {
@@ -1697,6 +2454,14 @@ func writeFn(outDir string, cs map[string]*checked, infos map[string]*pkgInfo) {
 	var targets []*fnDecl
 	var skipped [][2]string
 	want := map[string]bool{}
+	auto := strMode && len(fnTargets) == 0
+	if auto {
+		// string mode without an explicit list: try every function of the module, keep what is entirely inside the subset
+		for k := range ft.decls {
+			fnTargets = append(fnTargets, k)
+		}
+		sort.Strings(fnTargets)
+	}
 	for _, k := range fnTargets {
 		d, ok := ft.decls[k]
 		if !ok {
@@ -1707,8 +2472,10 @@ func writeFn(outDir string, cs map[string]*checked, infos map[string]*pkgInfo) {
 		targets = append(targets, d)
 		ft.byObj[d.obj] = d
 	}
-	for k := range want {
-		ft.target[k] = true
+	if !auto {
+		for k := range want {
+			ft.target[k] = true
+		}
 	}
 	for _, d := range targets {
 		_, o := ft.ensure(d.obj)
@@ -1722,9 +2489,14 @@ func writeFn(outDir string, cs map[string]*checked, infos map[string]*pkgInfo) {
 		defs.WriteString(tx + "\n")
 	}
 	var sb strings.Builder
-	sb.WriteString("-- GENERATED by gotrans (fntrans.go) from /repo's current source; do not edit.\nimport Gen.Tables\nset_option maxRecDepth 100000\nset_option linter.unusedVariables false\nnamespace Gen.Fn\n\n")
-	sb.WriteString("/-- Go panic / out of loop fuel -/\ninductive Err where\n  | panic\n  | fuel\n  deriving Repr, DecidableEq, Inhabited\n\n")
-	sb.WriteString("/-- slice index with Go's bounds panic -/\ndef idx (l : List Int) (i : Int) : Except Err Int :=\n  if i < 0 then throw Err.panic else match l[i.toNat]? with\n    | some v => pure v\n    | none => throw Err.panic\n\n")
+	if !strMode {
+		sb.WriteString("-- GENERATED by gotrans (fntrans.go) from /repo's current source; do not edit.\nimport Gen.Tables\nset_option maxRecDepth 100000\nset_option linter.unusedVariables false\nnamespace Gen.Fn\n\n")
+		sb.WriteString("/-- Go panic / out of loop fuel -/\ninductive Err where\n  | panic\n  | fuel\n  deriving Repr, DecidableEq, Inhabited\n\n")
+		sb.WriteString("/-- slice index with Go's bounds panic -/\ndef idx (l : List Int) (i : Int) : Except Err Int :=\n  if i < 0 then throw Err.panic else match l[i.toNat]? with\n    | some v => pure v\n    | none => throw Err.panic\n\n")
+	} else {
+		sb.WriteString("-- GENERATED by gotrans (fntrans.go, string mode) from /repo's current source; do not edit.\nimport Gen.Tables\nimport Gen.Fn\nset_option maxRecDepth 100000\nset_option linter.unusedVariables false\nnamespace Gen.FnS\nopen Gen.Fn (Err idx)\n\n")
+		sb.WriteString(strHeader)
+	}
 	for _, sn := range ft.sorder {
 		si := ft.structs[sn]
 		fmt.Fprintf(&sb, "/-- Go struct %s: its int / bool / nested-struct fields. Not modelled: %s -/\nstructure %s where\n", sn, strings.Join(si.opaque, "; "), sn)
@@ -1738,7 +2510,7 @@ func writeFn(outDir string, cs map[string]*checked, infos map[string]*pkgInfo) {
 	}
 	sb.WriteString(defs.String())
 	// listings
-	sb.WriteString("/-- atoms: (function, atom parameter, Lean type, `+line-offset: Go source text`) -/\ndef atoms : List (String × String × String × String) := [\n")
+	sb.WriteString("/-- atoms: (function, atom parameter, Lean type, Go source text), in source order -/\ndef atoms : List (String × String × String × String) := [\n")
 	var rows []string
 	for _, d := range order {
 		o := ft.out[d.key]
@@ -1750,7 +2522,7 @@ func writeFn(outDir string, cs map[string]*checked, infos map[string]*pkgInfo) {
 		}
 	}
 	sb.WriteString(strings.Join(rows, ",\n") + "\n]\n\n")
-	sb.WriteString("/-- statements outside the subset that were not translated: (function, `+line-offset reason: Go source text`) -/\ndef dropped : List (String × String) := [\n")
+	sb.WriteString("/-- statements outside the subset that were not translated: (function, `reason: Go source text`), in source order -/\ndef dropped : List (String × String) := [\n")
 	rows = nil
 	for _, d := range order {
 		o := ft.out[d.key]
@@ -1792,8 +2564,8 @@ func writeFn(outDir string, cs map[string]*checked, infos map[string]*pkgInfo) {
 	for _, s := range skipped {
 		rows = append(rows, fmt.Sprintf("  (%s, %s)", leanStr(s[0]), leanStr(s[1])))
 	}
-	sb.WriteString(strings.Join(rows, ",\n") + "\n]\n\nend Gen.Fn\n")
-	if err := os.WriteFile(filepath.Join(outDir, "Fn.lean"), []byte(sb.String()), 0o644); err != nil {
+	sb.WriteString(strings.Join(rows, ",\n") + "\n]\n\nend " + ns + "\n")
+	if err := os.WriteFile(filepath.Join(outDir, file), []byte(sb.String()), 0o644); err != nil {
 		fmt.Fprintln(os.Stderr, err)
 		os.Exit(1)
 	}
